@@ -380,7 +380,7 @@ class LocalOut(AbstractOut):
     @classmethod
     def kr(cls, output):
         output = utl.as_list(output)
-        cls._multi_new('audio', *output)
+        cls._multi_new('control', *output)
         # return 0.0  # // LocalOut has no output.
 
     @classmethod
